@@ -198,6 +198,18 @@ pub enum Op {
     SigSet(Id, Vec<u8>),
     Raise(u8),
     Nop,
+    /// n sends in a row (queue lengths around the 1024 batch limit)
+    SendMany(Id, u32),
+    /// n trivially ready futures scheduled in a row, task ids base..base+n
+    ScheduleMany { exec: Id, base: Id, n: u32 },
+    /// a future on executor `exec` that takes adapter `adapter` and moves `total` bytes in
+    /// chunks of `chunk`: kind 0 = AsyncRead, 1 = AsyncWrite, 2 = readable().await then read,
+    /// 3 = writable().await then write, 4 = vectored read, 5 = vectored write + flush;
+    /// `then`: 0 = give the adapter back, 1 = drop it, 2 = into_inner
+    AdapterTask { exec: Id, task: Id, adapter: Id, kind: u8, total: u32, chunk: u32, then: u8 },
+    AdapterPeerWrite(Id, u32),
+    AdapterPeerRead(Id, u32),
+    AdapterPeerClose(Id),
 }
 
 pub const INTEREST_NAMES: [&str; 4] = ["EMPTY", "READ", "WRITE", "BOTH"];
@@ -307,6 +319,12 @@ impl Op {
             Op::SigSet(..) => "SigSet",
             Op::Raise(_) => "Raise",
             Op::Nop => "Nop",
+            Op::SendMany(..) => "SendMany",
+            Op::ScheduleMany { .. } => "ScheduleMany",
+            Op::AdapterTask { .. } => "AdapterTask",
+            Op::AdapterPeerWrite(..) => "AdapterPeerWrite",
+            Op::AdapterPeerRead(..) => "AdapterPeerRead",
+            Op::AdapterPeerClose(_) => "AdapterPeerClose",
         }
     }
 }
